@@ -23,6 +23,7 @@ type mutantSpec struct {
 	Occurrence int    `json:"occurrence,omitempty"` // 1-based; 0 = must be unique
 	ExpectRule string `json:"expect_rule"`          // e.g. C01.D2 (prefix match); controls: empty
 	Why        string `json:"why,omitempty"`
+	Canary     bool   `json:"canary,omitempty"` // also run in the quick tier (positive example on every run)
 	// additional edits applied together (two cooperating sites)
 	More []struct {
 		File       string `json:"file"`
@@ -69,7 +70,7 @@ func nonOKKeys(res runResult) map[string]Obligation {
 	return m
 }
 
-func runSelfTest(p *PropertyDef, repo string, known []KnownFinding) *selfTestSummary {
+func runSelfTest(p *PropertyDef, repo string, known []KnownFinding, canaryOnly bool) *selfTestSummary {
 	st := &selfTestSummary{}
 	b, err := os.ReadFile(filepath.Join(verifDir, "mutants", p.ID+".json"))
 	if err != nil {
@@ -83,6 +84,18 @@ func runSelfTest(p *PropertyDef, repo string, known []KnownFinding) *selfTestSum
 		st.Details = append(st.Details, "mutant file unreadable: "+err.Error())
 		st.MutantsSurvived = append(st.MutantsSurvived, "spec-unreadable")
 		return st
+	}
+	if canaryOnly {
+		var keep []mutantSpec
+		for _, m := range spec.Mutants {
+			if m.Canary {
+				keep = append(keep, m)
+			}
+		}
+		spec.Mutants = keep
+		if len(keep) == 0 {
+			return nil
+		}
 	}
 	// baseline
 	w0, err := baselineWorld(repo)
